@@ -164,8 +164,8 @@ template <class R, bool I = std::is_integral<R>::value, int B = sizeof(R)> struc
 };
 template <class R> struct Alpha<R, true, 1> { static std::vector<R> pair() { return vals_all<R>(); } static std::vector<R> unary() { return vals_all<R>(); } };
 template <class R> struct Alpha<R, true, 2> { static std::vector<R> pair() { return vals_edge<R>(6); } static std::vector<R> unary() { return vals_all<R>(); } };
-template <class R> struct Alpha<R, true, 4> { static std::vector<R> pair() { return vals_edge<R>(3); } static std::vector<R> unary() { return vals_edge<R>(512); } };
-template <class R> struct Alpha<R, true, 8> { static std::vector<R> pair() { return vals_edge<R>(3); } static std::vector<R> unary() { return vals_edge<R>(512); } };
+template <class R> struct Alpha<R, true, 4> { static std::vector<R> pair() { return vals_edge<R>(2); } static std::vector<R> unary() { return vals_edge<R>(512); } };
+template <class R> struct Alpha<R, true, 8> { static std::vector<R> pair() { return vals_edge<R>(2); } static std::vector<R> unary() { return vals_edge<R>(512); } };
 template <class R> const std::vector<R> &pair_vals() { static const std::vector<R> v = Alpha<R>::pair(); return v; }
 template <class R> const std::vector<R> &unary_vals() { static const std::vector<R> v = Alpha<R>::unary(); return v; }
 
